@@ -162,11 +162,12 @@ RangeToken* RangeToken::getCaseInsensitiveToken(TokenFactory* const tokFactory) 
         RangeToken* lwrToken = tokFactory->createRange(isNRange);
 
 #if XERCES_USE_TRANSCODER_ICU && ((U_ICU_VERSION_MAJOR_NUM > 2) || (U_ICU_VERSION_MAJOR_NUM == 2 && U_ICU_VERSION_MINOR_NUM >=4))
-        UChar* rangeStr=(UChar*)fMemoryManager->allocate(40*fElemCount*sizeof(UChar));
+        // room for "[", "]" and the terminator even when there is no range at all
+        UChar* rangeStr=(UChar*)fMemoryManager->allocate((40*fElemCount+3)*sizeof(UChar));
         ArrayJanitor<UChar> janRange(rangeStr, fMemoryManager);
         int c=0;
         rangeStr[c++] = chOpenSquare;
-        for (unsigned int i = 0;  i < fElemCount - 1;  i += 2) {
+        for (unsigned int i = 0;  i + 1 < fElemCount;  i += 2) {
             XMLCh buffer[10];
             XMLSize_t len, j;
 
